@@ -239,7 +239,7 @@ type machine struct {
 	ddl0     []string // the initial schema statements
 	dirty    bool     // a statement ran since the last invariant evaluation
 	log      []string
-	// rebuildAfterFailure: finding C18-stale-index is listed as known; the region "history
+	// rebuildAfterFailure: finding C18-stale-index-after-failed-stmt is listed as known; the region "history
 	// continues on the same engine after a failed statement" is excluded by construction:
 	// the contents are moved to a fresh engine after every failed statement.
 	rebuildAfterFailure bool
@@ -344,7 +344,11 @@ func (mc *machine) run(rt *rapid.T, q string, o outcome) {
 	case r.OK():
 		mc.st.Class("engine:ok")
 		if o.class == mustFail {
-			rt.Fatalf("statement succeeded but must fail (%s)\n  statement: %s\n  before:\n%s%s", strings.Join(o.reasons, "; "), q, describe(mc.sc, mc.m), mc.history())
+			hint := ""
+			if strings.HasPrefix(q, "UPDATE") && len(o.reasons) > 0 && strings.HasPrefix(o.reasons[0], "duplicate unique key") {
+				hint = "\n  (a multi-row UPDATE that ends in a duplicate UNIQUE value is finding " + findingUniqueBypass + " of property C14; list it with \"also\": [\"C18\"] to keep C18 out of that region)"
+			}
+			rt.Fatalf("statement succeeded but must fail (%s)%s\n  statement: %s\n  before:\n%s%s", strings.Join(o.reasons, "; "), hint, q, describe(mc.sc, mc.m), mc.history())
 		}
 		mc.m = o.final
 		if o.depth >= 2 {
@@ -738,8 +742,6 @@ func (mc *machine) deepAction(rt *rapid.T) {
 				if len(g) != 1 {
 					continue
 				}
-				set := map[int64]int64{}
-				_ = set
 				c := g[0]
 				nv := nid
 				if c != 0 {
@@ -898,11 +900,12 @@ func (mc *machine) updateChild(rt *rapid.T) {
 	}
 	p := mc.genPred(rt, t)
 	q := "UPDATE " + td.name + " SET " + strings.Join(asg, ", ") + p.sql
-	if len(f.cols) == 1 && td.cols[f.cols[0]].name == "u" && v[f.cols[0]] != null && len(mc.matching(t, p)) >= 2 {
+	if kf.Listed(findingUniqueBypass) && len(f.cols) == 1 && td.cols[f.cols[0]].name == "u" && v[f.cols[0]] != null && len(mc.matching(t, p)) >= 2 {
 		// A multi-row UPDATE that gives several rows the same UNIQUE value is not reliably
-		// rejected by the engine (unique-key enforcement, property C14; see notes/C18.md
-		// "C14-multirow-update-unique-bypass"). Not a foreign-key matter: never executed here.
-		mc.st.Excluded("C14-multirow-update-unique-bypass")
+		// rejected by the engine (unique-key enforcement is property C14's subject: finding
+		// C14-deleted-unique, see notes/C18.md). Not a foreign-key matter: the statement is
+		// not executed while that finding is listed for C18 (entry with "also": ["C18"]).
+		mc.st.Excluded(findingUniqueBypass)
 		rt.Skip()
 	}
 	var o outcome
@@ -1103,6 +1106,13 @@ const findingSharedIdx = "C18-stale-index-after-failed-stmt"
 // rows (memory.Table.CreateIndexForForeignKey); referential actions and RESTRICT checks
 // find children through that index and miss every pre-existing child row.
 const findingFKIndex = "C18-fk-index-not-built"
+
+// findingUniqueBypass is C14's finding (not a foreign-key defect): a multi-row UPDATE that
+// gives several rows the same UNIQUE value succeeds, because the unique check of the
+// in-memory table editor gives up as soon as a row deleted earlier in the statement has the
+// value (pkTableEditAccumulator.GetByCols). C18's model needs UNIQUE keys to hold (they are
+// the referenced keys), so the statement form is skipped while the finding is listed.
+const findingUniqueBypass = "C14-deleted-unique"
 
 func TestC18(t *testing.T) {
 	st := stats.New("C18", "")
